@@ -246,13 +246,18 @@ def _seqkey(seq, k):
     return 'A' if seq == 'A' else f'{seq}#k{k}'
 
 
-def _mk(V, nanmask):
+def _mk(V, nanmask, partial=False):
     from ahrs import QuaternionArray
     QA = QuaternionArray(V.copy())
     X0 = np.array(QA.array, dtype=float)            # rows as the object holds them (constructor normalises)
     if nanmask.any():
-        QA[nanmask] = np.nan                        # the route the repository's own test uses
-        QA.array[nanmask] = np.nan
+        if partial:                                 # a sample with only SOME components missing is a gap too
+            for r_ in np.nonzero(nanmask)[0]:
+                QA[r_, r_ % 4] = np.nan
+                QA.array[r_, r_ % 4] = np.nan
+        else:
+            QA[nanmask] = np.nan                    # the route the repository's own test uses
+            QA.array[nanmask] = np.nan
     return QA, X0
 
 
@@ -335,9 +340,21 @@ def job_hist(ctx, seq, k, N, lo, hi):
             ctx.outcome(('fill', sk, N, tuple(np.sign(np.einsum('ij,ij->i', np.array(QA.array, float), base)))))
         # ---- slerp_nan(inplace=False)
         QA, X0 = _mk(V, nanmask)
+        before = np.array(QA.array, float)
         ok, out = _apply(ctx, 'slerp_nan(inplace=False)', key, lambda: QA.slerp_nan(inplace=False))
         if ok:
             _check_fill(ctx, 'slerp_nan(inplace=False)', key, X0, nanmask, out, samesign)
+            after = np.array(QA.array, float)
+            ctx.expect(np.array_equal(before, after, equal_nan=True) and not np.shares_memory(np.asarray(out), QA.array),
+                       'slerp_nan(inplace=False) leaves the object as it was and returns a new array', key, after, before)
+        # ---- rows with only one component missing are gaps as well (short histories only)
+        if has_nan and N <= 6:
+            for mode in (True, False):
+                QA, X0 = _mk(V, nanmask, partial=True)
+                ok, out = _apply(ctx, f'slerp_nan(inplace={mode}) [partially-NaN rows]', key, lambda: QA.slerp_nan(inplace=mode))
+                if ok:
+                    _check_fill(ctx, f'slerp_nan(inplace={mode}) [partially-NaN rows]', key, X0, nanmask, np.array(QA.array, float) if mode else out, samesign)
+                ctx.cls('nan:partial-rows')
         # ---- sign-jump removal on NaN-free histories
         if not has_nan:
             QA, X0 = _mk(V, nanmask)
